@@ -366,6 +366,19 @@ def recover_order(func):
 
 def callee_info(repo, f):
     """call node -> (positional parameter names of the package callee, 1 when `self` is bound implicitly) or None."""
+    _trees = []
+
+    def trees():
+        if not _trees:
+            _trees.append(f.node)
+            try:
+                entry = reference().get('%s:%s#src' % (f.rel, f.qualname))
+                if entry:
+                    _trees.append(reference_node(entry))
+            except Exception:
+                pass
+        return _trees
+
     def info(call):
         try:
             g = repo.resolve_call(call, f)
@@ -374,12 +387,16 @@ def callee_info(repo, f):
         if g is None and isinstance(call.func, ast.Attribute) and isinstance(call.func.value, ast.Name) and call.func.value.id not in ('self', 'cls'):
             # obj.method(..) where obj is bound once, to an instance of a class of the package: obj = Class(..)
             obj = call.func.value.id
-            binds = [st for st in ast.walk(f.node) if isinstance(st, ast.Assign) and any(isinstance(t, ast.Name) and t.id == obj for t in st.targets)]
-            nstores = sum(1 for x in ast.walk(f.node) if isinstance(x, ast.Name) and x.id == obj and isinstance(x.ctx, (ast.Store, ast.Del)))
-            if len(binds) == 1 and nstores == 1 and obj not in f.params and isinstance(binds[0].value, ast.Call) and isinstance(binds[0].value.func, ast.Name):
-                r = repo.resolve_symbol(f.module, binds[0].value.func.id)
-                if isinstance(r, tuple):
-                    g = r[0].funcs.get(r[1].name + '.' + call.func.attr)
+            # the call may sit in the current spelling of the function or in its reference spelling (locals may be named differently)
+            for tree in trees():
+                binds = [st for st in ast.walk(tree) if isinstance(st, ast.Assign) and any(isinstance(t, ast.Name) and t.id == obj for t in st.targets)]
+                nstores = sum(1 for x in ast.walk(tree) if isinstance(x, ast.Name) and x.id == obj and isinstance(x.ctx, (ast.Store, ast.Del)))
+                if len(binds) == 1 and nstores == 1 and obj not in f.params and isinstance(binds[0].value, ast.Call) and isinstance(binds[0].value.func, ast.Name):
+                    r = repo.resolve_symbol(f.module, binds[0].value.func.id)
+                    if isinstance(r, tuple):
+                        g = r[0].funcs.get(r[1].name + '.' + call.func.attr)
+                        if g is not None:
+                            break
         if g is None:
             return None
         a = g.node.args
